@@ -11,12 +11,12 @@ using namespace gv;
 static Reg r_fwd("c13_fwd", [](const Args& a) {
   const std::string& c = a[0]; double p = unhx(a[1]), q = unhx(a[2]); int prec = std::atoi(a[3].c_str());
   std::string s = SS;
-  alarm(30);
+  arm(30);
   std::string e = guarded([&] {
     if (c == "geohash") Geohash::Forward(p, q, prec, s); else if (c == "gars") GARS::Forward(p, q, prec, s); else if (c == "georef") Georef::Forward(p, q, prec, s);
     else if (c == "osgb") OSGB::GridReference(p, q, prec, s); else if (c == "mgrs") MGRS::Forward(32, true, p, q, prec, s); else if (c == "mgrsups") MGRS::Forward(0, true, p, q, prec, s);
     else throw std::logic_error("codec"); });
-  alarm(0);
+  arm(0);
   emit((e.empty() ? "-" : e) + " " + hs(s == SS ? "" : s) + " w" + (s == SS ? "0" : "1"));
   if (!e.empty() && e != "!E") bad("foreign-exception", c + " Forward threw " + e);
   if (!e.empty() && s != SS) bad("output-modified-on-throw", c + " Forward threw but changed its output string");
@@ -33,7 +33,7 @@ static Reg r_fwd("c13_fwd", [](const Args& a) {
 static Reg r_utmfwd("c13_utmfwd", [](const Args& a) {
   double lat = unhx(a[0]), lon = unhx(a[1]); int setzone = std::atoi(a[2].c_str()); bool mg = a[3] == "1";
   std::string res; std::string exc; bool touched = false;
-  alarm(30);
+  arm(30);
   for (int pass = 0; pass < 2; ++pass) {
     int z = SI + pass; bool n = pass == 1; double o[4] = {1.5e77, 2.5e77, 3.5e77, 4.5e77};
     std::string e = guarded([&] { UTMUPS::Forward(lat, lon, z, n, o[0], o[1], o[2], o[3], setzone, mg); });
@@ -41,7 +41,7 @@ static Reg r_utmfwd("c13_utmfwd", [](const Args& a) {
     if (pass == 0) { exc = e; res = std::to_string(z) + " " + hx(o[0]) + " " + hx(o[1]) + " " + hx(o[2]) + " " + hx(o[3]); }
     touched = touched || t;
   }
-  alarm(0);
+  arm(0);
   emit((exc.empty() ? "-" : exc) + " " + res + " w" + (touched ? "1" : "0"));
   if (!exc.empty() && exc != "!E") bad("foreign-exception", "UTMUPS::Forward threw " + exc);
   if (!exc.empty() && touched) bad("output-modified-on-throw", "UTMUPS::Forward threw but modified zone/northp/x/y/gamma/k");
@@ -50,9 +50,9 @@ static Reg r_utmfwd("c13_utmfwd", [](const Args& a) {
 static Reg r_utmrev("c13_utmrev", [](const Args& a) {
   int zone = std::atoi(a[0].c_str()); bool northp = a[1] == "1"; double x = unhx(a[2]), y = unhx(a[3]); bool mg = a[4] == "1";
   double o[4] = {1.5e77, 2.5e77, 3.5e77, 4.5e77};
-  alarm(30);
+  arm(30);
   std::string e = guarded([&] { UTMUPS::Reverse(zone, northp, x, y, o[0], o[1], o[2], o[3], mg); });
-  alarm(0);
+  arm(0);
   bool t = o[0] != 1.5e77 || o[1] != 2.5e77 || o[2] != 3.5e77 || o[3] != 4.5e77;
   emit((e.empty() ? "-" : e) + " " + hx(o[0]) + " " + hx(o[1]) + " w" + (t ? "1" : "0"));
   if (!e.empty() && e != "!E") bad("foreign-exception", "UTMUPS::Reverse threw " + e);
@@ -63,7 +63,7 @@ static Reg r_utmrev("c13_utmrev", [](const Args& a) {
 static Reg r_rev("c13_rev", [](const Args& a) {
   const std::string& c = a[0]; std::string s = unhs(a[1]); bool cp = a[2] == "1";
   double x = 1.5e77, y = 2.5e77; int p = SI, z = SI; bool n = false, touched = false; std::string exc;
-  alarm(30);
+  arm(30);
   for (int pass = 0; pass < 2; ++pass) {
     x = 1.5e77; y = 2.5e77; p = SI; z = SI; n = pass == 1;
     std::string e = guarded([&] {
@@ -73,7 +73,7 @@ static Reg r_rev("c13_rev", [](const Args& a) {
     if (pass == 0) exc = e;
     touched = touched || x != 1.5e77 || y != 2.5e77 || p != SI || z != SI || n != (pass == 1);
   }
-  alarm(0);
+  arm(0);
   emit((exc.empty() ? "-" : exc) + " " + hx(x) + " " + hx(y) + " " + std::to_string(p) + " " + std::to_string(z) + " w" + (touched ? "1" : "0"));
   if (!exc.empty() && exc != "!E") bad("foreign-exception", c + " Reverse threw " + exc);
   if (!exc.empty() && touched) bad("output-modified-on-throw", c + " Reverse threw but modified its outputs");
@@ -83,7 +83,7 @@ static Reg r_rev("c13_rev", [](const Args& a) {
 static Reg r_parse("c13_parse", [](const Args& a) {
   const std::string& f = a[0]; std::string s = unhs(a[1]), s2 = a.size() > 2 ? unhs(a[2]) : std::string();
   bool touched = false; std::string exc, val;
-  alarm(30);
+  arm(30);
   for (int pass = 0; pass < 2; ++pass) {
     double x = 1.5e77, y = 2.5e77; int i1 = SI, i2 = SI + 1, i3 = SI + 2; DMS::flag fl = pass ? DMS::LATITUDE : DMS::NUMBER; std::string k = SS, v = SS; bool b = pass == 1;
     std::string e = guarded([&] {
@@ -111,7 +111,7 @@ static Reg r_parse("c13_parse", [](const Args& a) {
       touched = touched || x != 1.5e77 || y != 2.5e77 || i1 != SI || i2 != SI + 1 || i3 != SI + 2 || fl != (pass ? DMS::LATITUDE : DMS::NUMBER) || (!parseline && (k != SS || v != SS));
     if (!e.empty() && e != "!E" && e != "!A") bad("foreign-exception", f + " threw " + e + " on " + hs(s));
   }
-  alarm(0);
+  arm(0);
   emit((exc.empty() ? "-" : exc) + " " + val + " w" + (touched ? "1" : "0"));
   if (touched) bad("output-modified-on-throw", f + " threw but modified its outputs on " + hs(s));
 });
@@ -120,7 +120,7 @@ static Reg r_parse("c13_parse", [](const Args& a) {
 static Reg r_int("c13_int", [](const Args& a) {
   const std::string& f = a[0]; long long v = std::atoll(a[1].c_str()); int i = int(v);
   std::string s = SS; double x = 1.5e77, y = 2.5e77, g = 3.5e77, k = 4.5e77; int z = SI; bool n = false; int i1 = SI, i2 = SI, i3 = SI;
-  alarm(30);
+  arm(30);
   std::string e = guarded([&] {
     if (f == "Geohash.Forward") Geohash::Forward(40, 10, i, s);
     else if (f == "Geohash.Resolution") { double r = Geohash::LatitudeResolution(i) + Geohash::LongitudeResolution(i) + Geohash::DecimalPrecision(i); x = r; }
@@ -148,7 +148,7 @@ static Reg r_int("c13_int", [](const Args& a) {
     else if (f == "PolygonArea.AddPointN") { PolygonArea p(GS()); for (int j = 0; j < (i & 63); ++j) p.AddPoint(j, 2 * j); double r = p.Compute(false, true, x, y); (void)r; }
     else if (f == "Geoid.stub") { }
     else throw std::logic_error("function"); });
-  alarm(0);
+  arm(0);
   bool touched = s != SS || x != 1.5e77 || y != 2.5e77 || g != 3.5e77 || k != 4.5e77 || z != SI || i1 != SI || i2 != SI || i3 != SI;
   emit((e.empty() ? "-" : e) + " w" + (touched ? "1" : "0"));
   if (!e.empty() && e != "!E" && e != "!A") bad("foreign-exception", f + " threw " + e);
@@ -176,7 +176,7 @@ static const double DINF = std::numeric_limits<double>::infinity();
 inline void gen_text(Rng& r, bool thorough) {
   const double NaN = std::nan("");
   // 1. NaN / inf / out-of-range positions to every encoder
-  std::vector<double> sp = {NaN, DINF, -DINF, 1e308, -1e308, 91, -91, 90, -90, 180, -180, 540, 1e17, 0.0, -0.0, 5e-324, 40, 10, 4e5, 3e5, 5e5, 4.4e6, 2e6};
+  std::vector<double> sp = {NaN, DINF, -DINF, 1e308, -1e308, 91, -91, 90, -90, 180, -180, 540, 1e17, 0.0, -0.0, 5e-324, -5e-324, -1e-323, -1e-300, 40, 10, 4e5, 3e5, 5e5, 4.4e6, 2e6};
   for (const char* c : {"geohash", "gars", "georef", "osgb", "mgrs", "mgrsups"}) {
     bool grid = std::string(c) == "osgb" || std::string(c).compare(0, 4, "mgrs") == 0;
     double b0 = grid ? (std::string(c) == "osgb" ? 4e5 : std::string(c) == "mgrs" ? 5e5 : 2e6) : 40, b1 = grid ? (std::string(c) == "osgb" ? 3e5 : std::string(c) == "mgrs" ? 4.4e6 : 2e6) : 10;
@@ -185,7 +185,8 @@ inline void gen_text(Rng& r, bool thorough) {
       int prec = r.pick(std::vector<int>{0, 1, 2, 5, 11, -1, 12});
       double p0 = pos != 1 ? v : b0, p1 = pos != 0 ? v : b1; Args a{c, hx(p0), hx(p1), std::to_string(prec)};
       bool f25 = !grid && std::isinf(p1) && !(std::fabs(p0) > 90) && !std::isnan(p0), f26 = std::string(c) == "osgb" && ((!(std::fabs(p0) < 2e12) && !std::isnan(p0)) || (!(std::fabs(p1) < 2e12) && !std::isnan(p1)));
-      if (f25 || f26) { stratum("encoder-special-isolated-known-ub"); run_isolated("c13_fwd", a); } else runx("c13_fwd", a);
+      bool f33 = std::string(c) == "mgrs" && p1 < 0 && p1 > -1e-318;
+      if (f25 || f26 || f33) { stratum("encoder-special-isolated-known-ub"); run_isolated("c13_fwd", a); } else runx("c13_fwd", a);
     }
   }
   for (double lat : {NaN, DINF, -DINF, 91.0, -91.0, 90.0, -90.0, 40.0, 85.0, -85.0, 0.0, -0.0, 1e308, 84.0, -80.0, 10.0, -81.5, 86.0})
